@@ -342,6 +342,7 @@ def run(chk):
                        'runs the real detectors on the signal and on each transformed signal (negation, 2 affine maps, every admissible non-reversal insertion, '
                        'every placement of 1-2 interior NaNs, 6 Series index kinds) and checks the stated relation between the two observed outputs. '
                        'Non-trivial = signal with >= 1 closed cycle. Recorded pairs on longer random signals are decided by Trace_Symmetry.tla.')
+    chk.cov['rule'] += ' Also: clusters of three and four NaNs; negation of every strictly alternating signal over -2..2 with up to 8 (10) samples on all detectors.'
     chk.cov['exhaustive'] = True
     chk.assumptions += ['integer samples and integer affine maps in the TLC-validated part; dyadic scalings are exact in float64',
                         'FKM detector is only claimed to be invariant under negation and refinement (its rule uses absolute values)']
